@@ -2,6 +2,7 @@
 (* Trace validation for C16.  (Printed tuples are kept short: TLC wraps values longer than 80 columns.)  Events (harness/cmd/pco):
      PcoRoundTrip  units -> Marshal -> bytes -> UnMarshal -> back, err
      PcoUnMarshal  bytes -> UnMarshal -> back, err          (truncated / free / random inputs)
+     PcoHeld       the result slice and the parsed object of the preceding round trip, re-read after two other lists went through
      PsiToBool     256 two-octet buffers -> 256 bitmaps (entries as 0/1)
      PsiToBuf      256 bitmaps -> 256 two-octet buffers
      ReactErrCause (information only)
@@ -35,6 +36,14 @@ CheckRoundTrip(e) ==
        /\ (Len(e.bytes) >= 1 /\ e.bytes[1] = 128) \/ Mis("first-octet", e, IF Len(e.bytes) = 0 THEN -1 ELSE e.bytes[1])
        /\ e.bytes = m \/ Mis("marshal-octets", e, Len(e.bytes) - Len(m))
        /\ (~e.err /\ e.back = e.units) \/ Mis("round-trip", e, IF e.err THEN -1 ELSE Len(e.back))
+
+\* PcoHeld: the SAME slice and the SAME object the preceding round trip returned, read again after the library has marshalled and
+\* parsed two other lists.  Results are values: they must still be what Marshal / UnMarshal defined when they were returned.
+CheckHeld(e) ==
+  IF e.hang \/ e.panic THEN TRUE                \* the disturbing calls are judged by their own round-trip events elsewhere
+  ELSE IF ~WF(e.units) THEN PrintT(<<"HARNESS", l, "ill-formed case">>)
+  ELSE /\ e.bytes = Marshal(e.units) \/ Mis("marshal-result-changed-after-return", e, Len(e.bytes))
+       /\ (e.back = <<>> /\ e.units # <<>>) \/ e.back = e.units \/ Mis("unmarshal-result-changed-after-return", e, Len(e.back))
 
 CheckUnMarshal(e) ==
   IF e.hang THEN Mis("hang", e, 0)
@@ -74,6 +83,7 @@ CheckReact(e) ==
 Check(e) ==
   CASE e.op = "PcoRoundTrip"  -> CheckRoundTrip(e)
     [] e.op = "PcoUnMarshal"  -> CheckUnMarshal(e)
+    [] e.op = "PcoHeld"       -> CheckHeld(e)
     [] e.op = "PsiToBool"     -> CheckPsiToBool(e)
     [] e.op = "PsiToBuf"      -> CheckPsiToBuf(e)
     [] e.op = "ReactErrCause" -> CheckReact(e)
